@@ -309,6 +309,36 @@ func c01Commands(ctx *core.Ctx) {
 			ctx.Check(bad == "", "V18", "testscript#background-specifier", token.NoPos, "the constant pattern %q accepts exactly the documented specifier forms %s", pat, bad)
 		}
 	}
+	// ---- V19: a command that walks over its operands looks at every one of them
+	ctx.Rule("V19", "all operands count: in every built-in a loop over the argument list (or a re-slice of it) is left only when the list is exhausted or through Fatalf; a return or break inside it makes the verdict depend on the first operands only ('! exists absent present' would pass)", 3)
+	{
+		n := 0
+		var names []string
+		for name := range cmds {
+			names = append(names, name)
+		}
+		sort.Strings(names)
+		for _, name := range names {
+			f := cmds[name]
+			if f == nil || len(f.Params) < 3 {
+				continue
+			}
+			g := graph(p, f)
+			args := f.Params[2]
+			for k, l := range elementLoops(g, isVal(args)) {
+				n++
+				ux := uncountedExits(g, l)
+				where := ""
+				if len(ux) > 0 {
+					where = "left early through b" + itoa(ux[0][0])
+				}
+				ctx.Check(len(ux) == 0, "V19", "testscript.cmd:"+name+"#operand-loop"+itoa(k+1), f.Blocks[l.Header].Instrs[0].Pos(), "the loop over the operands runs to the end of the list %s", where)
+			}
+		}
+		if n == 0 {
+			ctx.Bad("V19", "testscript#operand-loops", token.NoPos, "no built-in iterates over its operands")
+		}
+	}
 	// ---- V17: skip checks the status of background commands first
 	ctx.Rule("V17", "skip settles background commands like wait does: on the way to T.Skip the background commands are waited for with their exit status checked (waitBackground(true), directly or through the wait command)", 1)
 	if sk := cmds["skip"]; sk != nil {
